@@ -90,3 +90,28 @@ def run_module(module_name, timeout=30, only=None, workers=12, suffix=None):
             r['replayed'] = replay(module_name, r['name'], r['cex'])
         out.append(r)
     return out
+
+
+def consume(rep, module_name, timeout=60, suffix=None, only=None, known_matcher=None):
+    """run a harness module and fold the verdicts into a Report"""
+    for r in run_module(module_name, timeout=timeout, suffix=suffix, only=only):
+        rep.program('crosshair:' + r['name'], sample=dict(harness=r['name'], verdict=r['verdict'], wall=r['wall']))
+        rep.section('crosshair', harnesses=1, **{r['verdict']: 1})
+        if not r['twin_ok']:
+            rep.harness_error(f"reachability twin of {r['name']} not refuted ({r['twin_verdict']})")
+        if r['verdict'] == 'confirmed':
+            rep.add_tally(dict(obligations=1, unsat=1))
+        elif r['verdict'] in ('refuted', 'raises'):
+            rep.add_tally(dict(obligations=1, sat=1))
+            if r.get('replayed', '').startswith(('False', 'raises')):
+                rep.add_tally(dict(sat_confirmed=1))
+                rec = dict(property=rep.prop, kind='crosshair', harness=r['name'], call=r['cex'],
+                           what=f"{r['cex']} is false on the real function (replayed: {r['replayed']})")
+                fid = known_matcher(r) if known_matcher else None
+                rep.violation(rec, fid)
+            else:
+                rep.add_tally(dict(sat_spurious=1))
+                rep.inconcl(dict(key=r['name'], what=f"counterexample {r['cex']} did not reproduce: {r.get('replayed')}"))
+        else:
+            rep.add_tally(dict(obligations=1, unknown=1))
+            rep.inconcl(dict(key=r['name'], what='CrossHair: not confirmed within the time budget', raw=r['raw'][-200:]))
